@@ -391,8 +391,15 @@ func run(c *h.Check) {
 			c.Sample(map[string]any{"case": k.String()})
 		}
 	}
+	sq := seqcases(c.Thorough())
+	for _, s := range sq {
+		if c.TimeUp() {
+			return
+		}
+		c.Explore(seqScenario(s), bound, 4000, false)
+	}
 	if c.Worker == 0 {
-		c.Note(fmt.Sprintf("%d cases", len(cs)))
+		c.Note(fmt.Sprintf("%d single-publish cases, %d sequences of publishes on one bus", len(cs), len(sq)))
 	}
 }
 
@@ -400,6 +407,11 @@ func replay(c *h.Check, rf *h.ReplayFile) []vrt.Violation {
 	for _, k := range cases(true) {
 		if k.String() == rf.Scenario {
 			return h.ReplaySchedule(scenario(k), rf)
+		}
+	}
+	for _, s := range seqcases(true) {
+		if s.String() == rf.Scenario {
+			return h.ReplaySchedule(seqScenario(s), rf)
 		}
 	}
 	vrt.MachineryFault("unknown case %q", rf.Scenario)
